@@ -83,3 +83,19 @@ fn str_from_utf8<'a>(b: &'a [u8]) -> (r: Result<&'a str, Utf8Error>)
 fn str_first_char(s: &str) -> (r: Option<char>)
     ensures r == (if s@.len() > 0 { Some(s@[0]) } else { None::<char> }),
 { unimplemented!() }
+
+impl ByteSrc {
+    // std's `Read::read_exact` (default method): fills the whole buffer or fails; an error may be
+    // the source's own (any kind) or UnexpectedEof because the data ran out - nothing more is known
+    #[verifier::external_body]
+    pub fn read_exact(&mut self, buf: &mut [u8]) -> (r: Result<(), IoErr>)
+        ensures
+            final(buf)@.len() == old(buf)@.len(),
+            match r {
+                Ok(()) => old(buf)@.len() <= old(self).remaining().len()
+                    && final(buf)@ =~= old(self).remaining().take(old(buf)@.len() as int)
+                    && final(self).remaining() == old(self).remaining().skip(old(buf)@.len() as int),
+                Err(e) => true,
+            },
+    { unimplemented!() }
+}
